@@ -572,11 +572,57 @@ def lengths_keep_their_width(ctx, P):
            "the validators no longer tile the text" % ((bad[0].ty, bad[0].loc) if bad else ("", "")))
 
 
+def rejected_pieces_re_arm(ctx, P):
+    """the auto-aligned front end validates an input in pieces and combines their verdicts; is_byte_valid() re-arms the checker at
+    the byte it rejects, but a piece validated AFTER a rejected one can leave the checker inside a character again.  So where the
+    verdicts of several pieces are combined, the combined verdict is tested and the rejecting side re-initialises the checker - else
+    the next text on that checker is judged from the middle of a character the caller was told to forget"""
+    f = P.fn("utf8_checker.c:cjet_is_word_sequence_valid_auto_alligned")
+    VAL = ("cjet_is_byte_sequence_valid", "cjet_is_word_sequence_valid", "cjet_is_word64_sequence_valid", "cjet_is_text_valid")
+    bad = None
+    n = 0
+    for v in Q.path_views(ctx, P, f):
+        pieces = [i for _, i in v.calls() if i.callee and P.srcname_of(i.callee) in VAL]
+        if len(pieces) < 2:
+            continue
+        n += 1
+        ids = {i.id for i in pieces}
+
+        def combined(t):
+            if Q.mentions(t, lambda x: x[0] == "call" and x[3] in ids):
+                return True
+            for x in Q.subterms(t):      # the verdict merged over the alignment cases
+                if x[0] == "phi":
+                    try:
+                        lv, _ = Q.leaves(P, f, x[1], through_loads=False)
+                    except AnalysisBroken:
+                        continue
+                    if any(Q.mentions(l, lambda y: y[0] == "call" and y[3] in ids) for l in lv):
+                        return True
+            return False
+        rejected_side = False
+        tested = False
+        for (a, p) in v.atoms:
+            t = a[1] if a[0] == "truth" else a[2]
+            if combined(t):
+                tested = True
+                if (a[0] == "truth" and not p) or (a[0] == "cmp" and a[3] == ("const", 0) and Q._poleq(a, p)):
+                    rejected_side = True
+        rearm = any(P.srcname_of(i.callee) == "cjet_init_checker" for _, i in v.calls() if i.callee)
+        if not tested or (rejected_side and not rearm):
+            bad = v
+    ctx.ob("C18.4 R-SIB", f, "rejected-pieces-re-arm-the-checker", bad is None and n >= 2,
+           "cjet_is_word_sequence_valid_auto_alligned() combines the verdicts of its pieces without testing them (or rejects without "
+           "re-initialising the checker): a piece validated after a rejected one can leave the checker inside a character, and the next "
+           "text on that checker is rejected although it is well-formed", witness=bad.witness() if bad else None)
+
+
 def run(ctx):
     for cfg in ctx.configs(["default", "uchar"]):
         P = cfg.P
         state_lives_in_the_checker(ctx, P)
         lengths_keep_their_width(ctx, P)
+        rejected_pieces_re_arm(ctx, P)
         f, ev, st0 = extract(ctx, P)
         trans, start, impl_states = product(ctx, P, f, ev, st0)
         ctx.note("extracted automaton: %d reachable states" % len(impl_states))
